@@ -685,9 +685,20 @@ extern func (*bytes.Buffer).Len(b)
 extern func (*bytes.Buffer).Reset(b)
   sets blen(b) = 0
 extern func (*bytes.Buffer).Bytes(b)
+-- (for the embedded terminal's key encoder, C13: the runes written, as count / first / second; a string that is one
+-- rune has sequence kind 3, ESC and one rune kind 4, with that rune as its final -- ASSUMED)
+ghost bn(b *bytes.Buffer) int
+ghost b0(b *bytes.Buffer) rune
+ghost b1(b *bytes.Buffer) rune
+extern func (*bytes.Buffer).WriteRune(b, r)
+  sets b1(b) = (bn(b) == 1 ? r : b1(b))
+  sets b0(b) = (bn(b) == 0 ? r : b0(b))
+  sets bn(b) = bn(b) + 1
 extern func (*bytes.Buffer).String(b)
+  ensures seqkind(result) == (bn(b) == 1 ? 3 : ((bn(b) == 2 && b0(b) == 27) ? 4 : 0))
+  ensures seqfinal(result) == (bn(b) == 1 ? b0(b) : b1(b))
 extern func bytes.NewBuffer(buf)
-  ensures result != nil && blen(result) == len(buf)
+  ensures result != nil && blen(result) == len(buf) && (len(buf) == 0 ==> bn(result) == 0)
 extern func io.Writer.Write(w, p)
 extern func (*sync.Mutex).Lock(m)
 extern func (*sync.Mutex).Unlock(m)
